@@ -611,7 +611,9 @@ type tcpCase struct {
 	known   bool   // exactly 4 bytes naming an authorized, unbanned device
 }
 
-func idBytes(id uint32) []byte { return []byte{byte(id), byte(id >> 8), byte(id >> 16), byte(id >> 24)} }
+func idBytes(id uint32) []byte {
+	return []byte{byte(id), byte(id >> 8), byte(id >> 16), byte(id >> 24)}
+}
 
 func tcpCases(k *keys, probeID uint32, rng *rand.Rand, n int) []tcpCase {
 	var base []tcpCase
